@@ -160,6 +160,15 @@ def run(report, p):
         r1.check("NOT-FAILED" in roles and "FAILED" not in roles, fl, a, "failed entries are not excluded from the flattened manifest", construct="failed entries kept")
         r1.check("NOT-DIRECTORY" in roles and "DIRECTORY" not in roles, fl, a, "directory records are not excluded from the flattened manifest", construct="directory records kept")
 
+    # ------------------------------------------------------------------ R18.5
+    r5 = report.rule(
+        "R18.5",
+        "decision table of the carry-over, evaluated over four facts (record is a directory, entry failed, path already collected, this format already collected for the path): "
+        "the session append is executed exactly when the entry is a non-failed entry of a file record and (the path is new or the format is new for the path)",
+        1,
+    )
+    _flatten_decision_table(p, pr, r5, fl, by, sess_append, src_record, src_entry, helper_loops)
+
     # ------------------------------------------------------------------ R18.2
     r2 = report.rule("R18.2", "wiring: path, size, modification date come from the same source record, format, digest, action and hash date from the same source entry of that record", 1)
     want = [(0, src_record, "path"), (1, src_record, "file_size"), (2, src_record, "last_modification_date"), (3, src_entry, "hash_format"), (4, src_entry, "hash_string")]
@@ -175,6 +184,19 @@ def run(report, p):
         r2.check(ok, fl, a, "the carried-over record does not take (path, size, date, format, digest) from the matching source record / entry", construct="carry-over positional wiring")
         r2.check(act == f"{src_entry}.action", fl, a, f"the carried-over action is `{act}`, not the source entry's action", construct="carry-over action")
         r2.check(hd == f"{src_entry}.hash_date", fl, a, f"the carried-over hash date is `{hd}`, not the source entry's", construct="carry-over hash date")
+
+    # the session stores a handed-in action on the entry (flatten hands in the source entry's action)
+    sf = p.funcs.get(sess_append)
+    if sf is None:
+        raise AnalysisError("session append_file_hash not found")
+    from .common import canon_dep
+
+    gsf = cfg_of(sf)
+    act_param = next((x for x in sf.params + sf.kwonly if x == "action"), None)
+    stores = [n for n in walk_no_nested(sf.node) if isinstance(n, ast.Assign) and any(isinstance(t, ast.Attribute) and t.attr == "action" for t in n.targets) and isinstance(n.value, ast.Name) and n.value.id == act_param]
+    r2.instance(sf, stores[0] if stores else sf.node, "session stores the handed-in action")
+    oks = act_param is not None and len(stores) == 1 and {canon_dep(t.ast, l) for t, l in gsf.control_deps(gsf.node_for(stores[0]), transitive=False) if t.kind == "test"} <= {(f"{act_param} is None", "F"), (act_param, "T")}
+    r2.check(oks, sf, stores[0] if stores else sf.node, "the session does not store the action it is handed (unconditionally when one is given): the flattened manifest would carry recomputed actions instead of the recorded ones", construct="session action passthrough")
 
     # ------------------------------------------------------------------ R18.3
     r3 = report.rule("R18.3", "the flattened manifest is written by a session on the collection history at the destination, with process type 'flatten' and a packinglist_ base name; flatten records no directory entries", 2)
@@ -201,11 +223,165 @@ def run(report, p):
     r4.check("hashlist_xml_parser.parse(packing_list_path)".replace("packing_list_path", pl.params[1]) in t and "generation_number = 1" in t and "append_hash_list(hash_list)" in t, pl, pl.node, "the packing list is not loaded as generation 1 of a fresh history", construct="packing list loader body")
     ver = need(cmds, "verify")
     r4.check(pl.qual in p.reachable([ver.qual]), ver, ver.node, "verify does not reach the packing-list loader", construct="verify -pl routing")
+    # the loader returns the history it filled
+    rets = [n for n in walk_no_nested(pl.node) if isinstance(n, ast.Return)]
+    built = [n.targets[0].id for n in walk_no_nested(pl.node) if isinstance(n, ast.Assign) and len(n.targets) == 1 and isinstance(n.targets[0], ast.Name) and isinstance(n.value, ast.Call) and norm(n.value.func) in ("cls", "MHLHistory")]
+    r4.check(bool(rets) and bool(built) and all(isinstance(r_.value, ast.Name) and r_.value.id == built[0] for r_ in rets), pl, rets[0] if rets else pl.node, "the packing-list loader does not return the history it built", construct="packing list loader result")
+    # option wiring: --packing_list reaches the loader's packing-list parameter, ROOT its root parameter (through every hop)
+    opt_of = {}
+    for fq, f in p.funcs.items():
+        for call, tg in p.calls[fq]:
+            if pl.qual in tg:
+                r4.instance(f, call, norm(call)[:90])
+                b = p.bind_args(pl, call)
+                for pn, arg in b.items():
+                    if arg is None or pn in ("cls", "self") or not any(arg is x for x in list(call.args) + [k.value for k in call.keywords]):
+                        continue
+                    srcs = set()
+                    for o in pr.origins(arg, f):
+                        full = pr.expand_params(o, depth=4)
+                        for t in [o] + list(subterms(full)):
+                            if t[0] == "param" and t[1] == ver.qual:
+                                srcs.add(t[2])
+                    want = "packing_list" if "packing" in pn else ("root_path" if "root" in pn else None)
+                    if want and srcs:
+                        r4.check(srcs == {want}, f, call, f"the packing-list loader's parameter `{pn}` receives {sorted(srcs)} of `verify` instead of `{want}`", construct=f"loader {pn} <- {sorted(srcs)}")
+    # the -pl branch of the dispatcher hands the packing list on
+    gv = cfg_of(ver)
+    from .common import canon_dep
+
+    for call, tg in p.calls[ver.qual]:
+        deps = {canon_dep(t.ast, l) for t, l in gv.control_deps(gv.node_for(call), transitive=False) if t.kind == "test"}
+        if ("packing_list is None", "F") in deps or ("packing_list", "T") in deps:
+            for t in tg:
+                wf = p.funcs.get(t)
+                if wf is None or wf.module.name.endswith("logger"):
+                    continue
+                r4.instance(ver, call, "verify -pl worker call")
+                b = p.bind_args(wf, call)
+                passed = [pn for pn, arg in b.items() if isinstance(arg, ast.Name) and arg.id == "packing_list"]
+                r4.check(len(passed) == 1 and "packing" in passed[0], ver, call, f"the -pl branch of verify does not hand the packing list to its worker's packing-list parameter (bound to {passed})", construct="verify -pl argument")
+                rootp = [pn for pn, arg in b.items() if isinstance(arg, ast.Name) and arg.id == "root_path"]
+                r4.check(len(rootp) == 1 and "root" in rootp[0], ver, call, f"the -pl branch of verify passes the root path as `{rootp}`", construct="verify -pl root argument")
 
     # ---- rules shared with other properties (same mechanism, same rule, reported under every property it can break)
     include_rules(report, p, 'c11', ['R11.m'], 'first-wins per (path, format) rests on the session keeping one entry per format')
+    include_rules(report, p, 'c03', ['R3.9'], 'verify -pl and flatten are reached through dispatchers that must call their worker')
     include_rules(report, p, 'c04', ['R4.1'], 'every carry-over call must end in a record: the session appends (or judges) under the recorded-state conditions only, no other condition lets it drop a call')
     report.not_decided += ["equality of the flattened manifest with an independently computed summary", "outcomes of verify -pl on concrete trees", "histories with nested children or renames (outside the property's premise)"]
+
+
+def _flatten_decision_table(p, pr, r5, fl, by, sess_append, src_record, src_entry, helper_loops=None):
+    from sa.absint import OBJ, UNKNOWN, Evaluator, Val
+
+    from .common import canon_dep
+
+    record_loop, entry_loop = by["media_hashes"], by["hash_entries"]
+    append_calls = {id(c) for c, tg in p.calls[fl.qual] if sess_append in tg}
+    r5.instance(fl, record_loop, f"body of `for {norm(record_loop.target)} in {norm(record_loop.iter)}`")
+
+    def is_fmt_eq(test, other_var=None):
+        """canonical (is-equal?, polarity ok) for a comparison of the source entry's format with another entry's format"""
+        if isinstance(test, ast.Compare) and len(test.ops) == 1 and isinstance(test.ops[0], (ast.Eq, ast.NotEq)):
+            sides = [norm(test.left), norm(test.comparators[0])]
+            if f"{src_entry}.hash_format" in sides and all(x.endswith(".hash_format") for x in sides) and sides[0] != sides[1]:
+                return isinstance(test.ops[0], ast.Eq)
+        return None
+
+    bad_shape = []
+    record_names = {src_record}
+    pre_loop = None  # generator helper that decides which records reach flatten's loop at all
+    if helper_loops and id(record_loop) in helper_loops:
+        h_, hlp_, ys_ = helper_loops[id(record_loop)]
+        if hlp_.iter.attr == "media_hashes":
+            pre_loop = hlp_
+            record_names.add(norm(hlp_.target))
+
+    class FE(Evaluator):
+        def __init__(self, facts):
+            self.facts = facts
+            super().__init__(self.hook, fl.qual)
+
+        def hook(self, e, env):
+            f = self.facts
+            if isinstance(e, ast.Attribute) and e.attr == "is_directory" and norm(e.value) in record_names:
+                return Val(f["DIR"])
+            if isinstance(e, ast.Attribute) and norm(e) == f"{src_entry}.action":
+                return Val("failed" if f["FAILED"] else "verified")
+            if isinstance(e, ast.Call) and isinstance(e.func, ast.Attribute) and e.func.attr == "find_media_hash_for_path":
+                return Val(OBJ if f["PATHK"] else None)
+            if isinstance(e, ast.Call) and isinstance(e.func, ast.Attribute) and e.func.attr == "find_hash_entry_for_format" and e.args and norm(e.args[0]) == f"{src_entry}.hash_format":
+                return Val(OBJ if f["FMTK"] else None)
+            if isinstance(e, ast.Call) and norm(e.func) == "any" and len(e.args) == 1 and isinstance(e.args[0], (ast.GeneratorExp, ast.ListComp)):
+                eq = is_fmt_eq(e.args[0].elt)
+                if eq is True and not e.args[0].generators[0].ifs:
+                    return Val(f["FMTK"])
+                if eq is False:
+                    bad_shape.append((e, "the 'format already collected' test is true when a DIFFERENT format is present"))
+                    return Val(UNKNOWN)
+            return None
+
+        def step(self, s, env):
+            if isinstance(s, ast.Expr) and isinstance(s.value, ast.Yield):
+                env["__yielded"] = True
+                return [(env, None)]
+            if isinstance(s, ast.Expr) and isinstance(s.value, ast.Call) and id(s.value) in append_calls:
+                env["__appended"] = True
+                return [(env, None)]
+            if isinstance(s, ast.For):
+                if s is entry_loop:
+                    outs = self.run(s.body, env)
+                    return [(e2, None if (o is None or o[0] in ("continue", "break")) else o) for e2, o in outs]
+                # flag loop:  for e in <found>.hash_entries: if e.hash_format == <src entry>.hash_format: flag = True
+                if len(s.body) == 1 and isinstance(s.body[0], ast.If) and not s.body[0].orelse and not s.orelse:
+                    eq = is_fmt_eq(s.body[0].test)
+                    sets = [x for x in s.body[0].body if isinstance(x, ast.Assign) and len(x.targets) == 1 and isinstance(x.targets[0], ast.Name) and isinstance(x.value, ast.Constant) and x.value.value is True]
+                    if eq is not None and len(sets) == len([x for x in s.body[0].body if not isinstance(x, ast.Break)]) and sets:
+                        if eq is False:
+                            bad_shape.append((s.body[0].test, "the 'format already collected' flag is set when a DIFFERENT format is present"))
+                            for x in sets:
+                                env[x.targets[0].id] = UNKNOWN
+                        else:
+                            for x in sets:
+                                cur = env.get(x.targets[0].id, False)
+                                env[x.targets[0].id] = True if (cur is True or self.facts["FMTK"]) else cur
+                        return [(env, None)]
+            return super().step(s, env)
+
+    mism, undecided = [], []
+    for DIR in (False, True):
+        for FAILED in (False, True):
+            for PATHK in (False, True):
+                for FMTK in ((False, True) if PATHK else (False,)):
+                    facts = {"DIR": DIR, "FAILED": FAILED, "PATHK": PATHK, "FMTK": FMTK}
+                    ev = FE(facts)
+                    if pre_loop is not None:
+                        pre = ev.run(pre_loop.body, {})
+                        outs = []
+                        for e2, o in pre:
+                            if e2.get("__yielded"):
+                                outs += ev.run(record_loop.body, {})
+                            else:
+                                outs.append((e2, o))
+                    else:
+                        outs = ev.run(record_loop.body, {})
+                    got = {bool(e2.get("__appended", False)) for e2, o in outs if not (o and o[0] == "raise")}
+                    want = (not DIR) and (not FAILED) and ((not PATHK) or (not FMTK))
+                    if got == {want}:
+                        continue
+                    if len(got) == 2:
+                        undecided.append(facts)
+                    else:
+                        mism.append((facts, want))
+    for e, why in bad_shape[:1]:
+        r5.check(False, fl, e, why + ": formats that are new for the path are dropped and duplicates are appended", construct="format-known test with inverted comparison")
+    for facts, want in mism:
+        desc = ", ".join(k for k, v in (("directory record", facts["DIR"]), ("failed entry", facts["FAILED"]), ("path already collected", facts["PATHK"]), ("format already collected", facts["FMTK"])) if v) or "new path, good entry of a file record"
+        r5.check(False, fl, record_loop, f"for [{desc}] the entry is {'NOT ' if want else ''}carried over, it must {'be' if want else 'not be'}", construct=f"carry-over decision wrong for: {desc}")
+    if undecided and not mism and not bad_shape:
+        r5.note(f"{len(undecided)} row(s) of the table depend on conditions the evaluator does not model (judged by R18.1's guard classification)")
+    if not mism and not bad_shape:
+        r5.check(True, fl, record_loop, "")
 
 
 def _source_chain(o):
